@@ -10,12 +10,16 @@ Import ListNotations.
 Open Scope N_scope.
 
 (* what a writer does to a bit stream *)
-Inductive cop := CBits (v c : N) | CArr (bits : list N) (count : N).
+Inductive cop := CBit (b : N) | CBits (v c : N) | CArr (bits : list N) (count : N).
 
 Definition healthy_sink : N -> bool := fun _ => false.
 
 Definition run_cop (s : obs) (o : cop) : obs * bool :=
-  match o with CBits v c => write_bits healthy_sink s v c | CArr bits c => write_array healthy_sink s bits c end.
+  match o with
+  | CBit b => write_bit healthy_sink s b
+  | CBits v c => write_bits healthy_sink s v c
+  | CArr bits c => write_array healthy_sink s bits c
+  end.
 
 Fixpoint run_cops (s : obs) (ops : list cop) : obs * bool :=
   match ops with
